@@ -1298,7 +1298,7 @@ pub fn prepare(trace: &Trace, corpus: &mut Corpus) -> Result<Prepared, String> {
             if trace.rewrap_woff2 {
                 let faults = &trace.faults;
                 let mut inner_applied = vec![false; faults.len()];
-                image = disk::woff2_rewrap(&image, |raw| {
+                image = disk::woff2_rewrap_tail(&image, trace.woff2_tail_blocks, |raw| {
                     for (i, f) in faults.iter().enumerate() {
                         if f.targets().first().map(|t| t == "inner").unwrap_or(false) {
                             inner_applied[i] = disk::apply_bytes(raw, f);
@@ -1306,6 +1306,7 @@ pub fn prepare(trace: &Trace, corpus: &mut Corpus) -> Result<Prepared, String> {
                     }
                 })
                 .ok_or("woff2 rewrap of the wrapped font failed")?;
+                disk::woff2_attach_meta(&mut image, trace.woff2_meta_blocks);
                 for (i, a) in inner_applied.iter().enumerate() {
                     applied[i] |= *a;
                 }
@@ -1338,7 +1339,7 @@ pub fn prepare(trace: &Trace, corpus: &mut Corpus) -> Result<Prepared, String> {
             if trace.rewrap_woff2 {
                 let faults = &trace.faults;
                 let mut inner_applied = vec![false; faults.len()];
-                image = disk::woff2_rewrap(&image, |raw| {
+                image = disk::woff2_rewrap_tail(&image, trace.woff2_tail_blocks, |raw| {
                     for (i, f) in faults.iter().enumerate() {
                         if f.targets().first().map(|t| t == "inner").unwrap_or(false) {
                             inner_applied[i] = disk::apply_bytes(raw, f);
@@ -1346,6 +1347,7 @@ pub fn prepare(trace: &Trace, corpus: &mut Corpus) -> Result<Prepared, String> {
                     }
                 })
                 .ok_or("woff2 rewrap failed")?;
+                disk::woff2_attach_meta(&mut image, trace.woff2_meta_blocks);
                 for (i, a) in inner_applied.iter().enumerate() {
                     applied[i] |= *a;
                 }
@@ -1467,6 +1469,12 @@ pub fn run_trace(
     } else {
         "runs.faulted"
     });
+    if trace.woff2_tail_blocks > 0 {
+        stats.bump("crafted.woff2.runLengthTail");
+    }
+    if trace.woff2_meta_blocks > 0 {
+        stats.bump("crafted.woff2.runLengthMetadata");
+    }
     for sgy in &trace.surgery {
         // serde tag of the variant ("kind": "...")
         if let Ok(serde_json::Value::Object(m)) = serde_json::to_value(sgy) {
@@ -1620,6 +1628,31 @@ pub fn run_trace(
             stop = true;
         }
 
+        // ---- oracle 1a (C01/C02): a request that breaks the heap budget, survived because the
+        // allocation was fallible (the library returned an error after asking for the memory)
+        let refused = alloc::refused();
+        if result.is_ok() && refused != 0 && !stop {
+            let v = Violation {
+                property: owner_of(op).to_string(),
+                kind: "alloc".into(),
+                site: format!("alloc-budget:{}", op.kind()),
+                msg: format!(
+                    "allocation request of {} bytes breaks the {} MiB budget (fallible allocation: the op went on to return)",
+                    refused,
+                    HEAP_BUDGET >> 20
+                ),
+                op_index: i,
+                op_kind: op.kind().into(),
+                overflow_profile: false,
+            };
+            if v.property == prop {
+                report.violations.push(v);
+            } else {
+                report.foreign.push(v);
+            }
+            stop = true;
+        }
+
         // ---- oracle 1b (C01/C02): CPU time out of proportion (compute-only loops)
         // Shaping is quadratic in the length of the glyph run by design (element-wise insertion,
         // backward search for the base of every mark): the allowance is 0.1 us per pair of
@@ -1629,7 +1662,7 @@ pub fn run_trace(
         let cpu_limit = CPU_BASE_US
             + CPU_PER_BYTE_US * (env.font_len as u64 + op.arg_len() as u64)
             + run_len.saturating_mul(run_len) / 10;
-        if result.is_ok() && cpu_us > cpu_limit {
+        if result.is_ok() && cpu_us > cpu_limit && !stop {
             let v = Violation {
                 property: owner_of(op).to_string(),
                 kind: "cpu".into(),
